@@ -27,7 +27,7 @@ def build(ctx):
     exe = os.path.join(ctx.scratch, "bin", "pamdrv")
     os.makedirs(os.path.dirname(exe), exist_ok=True)
     hp = os.path.join(os.path.dirname(os.path.dirname(os.path.abspath(__file__))), "harness", "pam")
-    r = subprocess.run(["clang", "-g", "-O1", "-fsanitize=address,undefined", "-fno-omit-frame-pointer", "-Wall", "-Wl,--wrap=write",
+    r = subprocess.run(["clang", "-g", "-O1", "-fsanitize=address,undefined", "-fno-omit-frame-pointer", "-Wall", "-Wl,--wrap=write", "-Wl,--wrap=send",
                         "-I" + os.path.join(hp, "stub"), "-o", exe, os.path.join(hp, "pamdrv.c"),
                         os.path.join(repo, "pam", "pam_whawty.c")], stdout=subprocess.PIPE, stderr=subprocess.STDOUT, text=True)
     if r.returncode != 0:
@@ -85,6 +85,14 @@ def run_script(exe, work, idx, edge, creds=None, writecap=0):
                 return
         t0 = time.time()
         delay = {"none": 0.0, "short": 0.35, "long": 1.7}[s["delay"]]
+        if not s.get("reads", True):      # a server that does not read the request: (part of) its reply at once, then close
+            try:
+                if reply[:s["cut"]]:
+                    c.sendall(reply[:s["cut"]])
+                c.close()
+            except Exception:
+                pass
+            return
         while time.time() - t0 < delay:
             drain()
         drain()
@@ -150,6 +158,10 @@ def judge(ctx, results, prop="C20"):
             key = "no-termination:stale-errno-eintr" if s["staleErrno"] and s["after"] == "close" else "no-termination:" + tag
             ctx.violation(prop, key, "pam_sm_authenticate did not return within 9 s (script %s, errno on entry %s)" % (tag, "EINTR" if s["staleErrno"] else 0))
             continue
+        if r["exit"] == -13:
+            ctx.violation(prop, "killed-by-sigpipe:" + ("no-read" if not s.get("reads", True) else tag), "the process that called pam_sm_authenticate was "
+                          "killed by SIGPIPE (script %s, user/pw lengths %s): no PAM code at all" % (tag, r["creds"]))
+            continue
         if "AddressSanitizer" in r["stderr"] or "runtime error" in r["stderr"] or r["exit"] not in (0,):
             ctx.violation(prop, "memory-error:" + s["reply"]["id"], "exit %s: %s" % (r["exit"], r["stderr"][-800:]))
             continue
@@ -162,7 +174,7 @@ def judge(ctx, results, prop="C20"):
                 r["edge"]["success"], r["rc"], r["ms"], r["creds"], r["opts"]))
         if r["ms"] > 4500:
             ctx.violation(prop, "too-slow:" + tag, "%d ms with timeout=%d" % (r["ms"], TIMEOUT_S))
-        if s["reachable"] and r["accepted"] and not (s["delay"] == "none" and s["after"] == "close" and s["cut"] > 0):
+        if s["reachable"] and r["accepted"] and s.get("reads", True) and not (s["delay"] == "none" and s["after"] == "close" and s["cut"] > 0):
             # the request is complete whenever the server kept reading (it may stop early once it has answered and closed)
             if r["request"] != r["want_request"]:
                 ctx.violation(prop, "request-bytes:%d/%d" % r["creds"], "module sent %d bytes %r..., the wire format is %d bytes %r..." % (
